@@ -219,7 +219,12 @@ routine:
 			break routine
 		}
 		conn.maintainKeepalive()
-		conn.recvCh <- data
+		// nobody may be reading any more: do not outlive the connection
+		select {
+		case conn.recvCh <- data:
+		case <-conn.ctx.Done():
+			break routine
+		}
 	}
 }
 
